@@ -182,6 +182,9 @@ def _validate_pandas(
 ) -> pd.DataFrame:
     warnings.filterwarnings("ignore", category=FutureWarning)
 
+    # Work on a copy: the frame may be the caller's own object (validate_dataset, run with DataFrames)
+    data = data.copy()
+
     # Strip UTF-8 BOM from column names (e.g. DataFrames read from BOM-encoded CSVs)
     bom_stripped = [str(col).removeprefix("\ufeff") for col in data.columns]
     data.columns = pd.Index(bom_stripped)
